@@ -313,4 +313,7 @@ def run(tier, seed):
                 mono = p is not None and not p.is_param and p.op == "phi" and all(
                     (is_const(v) and const_val(v) == 0) or M.match(("bin", "add", ("inst", p.id), ANY), v, {}) is not None for v, _ in p.incoming)
                 rep.check(rid, mono, "filepos starts at 0 and is only increased", sx.file, None, function=sx.cname, obj="monotone")
+        # ---- decoder objects do not accumulate from member to member (heap bound): the slot rules of C20 ------------------
+        from .c20 import decoder_slot_rules
+        decoder_slot_rules(rep, ctx, mod, prefix="C20.")
     return rep.finish(seed)
